@@ -32,6 +32,9 @@ struct hash_node {
 	void *value;
 	const char *key;
 	uint32_t refcount;
+	/* set by qb_map_rm(): the node only lingers in its bucket until the
+	 * iterators positioned on it have moved on */
+	int32_t removed;
 	struct qb_list_head notifier_head;
 };
 
@@ -98,7 +101,7 @@ hashtable_lookup(struct hash_table *t, const char *key)
 	qb_list_for_each(list, &t->hash_buckets[hash_entry].list_head) {
 
 		hash_node = qb_list_entry(list, struct hash_node, list);
-		if (strcmp(hash_node->key, key) == 0) {
+		if (!hash_node->removed && strcmp(hash_node->key, key) == 0) {
 			return hash_node;
 		}
 	}
@@ -162,7 +165,8 @@ hashtable_rm_with_hash(struct qb_map *map, const char *key, uint32_t hash_entry)
 	                      &hash_table->hash_buckets[hash_entry].list_head) {
 
 		hash_node = qb_list_entry(list, struct hash_node, list);
-		if (strcmp(hash_node->key, key) == 0) {
+		if (!hash_node->removed && strcmp(hash_node->key, key) == 0) {
+			hash_node->removed = QB_TRUE;
 			hashtable_node_deref(map, hash_node);
 			hash_table->count--;
 			return QB_TRUE;
@@ -196,7 +200,7 @@ hashtable_put(struct qb_map *map, const char *key, const void *value)
 	qb_list_for_each(list, &hash_table->hash_buckets[hash_entry].list_head) {
 
 		node_try = qb_list_entry(list, struct hash_node, list);
-		if (strcmp(node_try->key, key) == 0) {
+		if (!node_try->removed && strcmp(node_try->key, key) == 0) {
 			hash_node = node_try;
 			break;
 		}
@@ -415,7 +419,7 @@ hashtable_iter_next(qb_map_iter_t * it, void **value)
 		hash_node = qb_list_first_entry(ln, struct hash_node, list);
 		qb_list_for_each_entry_from(hash_node,
 		                &hash_table->hash_buckets[b].list_head, list) {
-			if (hash_node->refcount > 0) {
+			if (!hash_node->removed) {
 				found = QB_TRUE;
 				hash_node->refcount++;
 				hi->bucket = b;
